@@ -265,10 +265,28 @@ func (f *FieldCopyToGenerator) genObject() *j.Statement {
 		}
 
 		f.assertTo(f.Field.ElemType, g, func(g *j.Group) {
+			fieldName := f.genOptionalEmbedValue(fieldName, g)
 			f.genObjectBody(m, fieldName, f.Field.ValueType, g)
 			g.Id("tf.Attrs").Index(j.Lit(f.NameSnake)).Op("=").Id("v")
 		})
 	})
+}
+
+// genOptionalEmbedValue reads a field of a nullable embedded message into a local variable, a nil embedded message
+// yields the zero value of the field. Returns the expression the field must be read through.
+func (f *FieldCopyToGenerator) genOptionalEmbedValue(fieldName string, g *j.Group) string {
+	if !f.ParentIsOptionalEmbed {
+		return fieldName
+	}
+
+	// var e []string
+	// if obj.Embedded != nil { e = obj.List }
+	g.Var().Id("e").Id(f.i.WithType(f.GoType))
+	g.If(j.Id("obj." + f.ParentIsOptionalEmbedFieldName).Op("!=").Nil()).Block(
+		j.Id("e").Op("=").Id(fieldName),
+	)
+
+	return "e"
 }
 
 func (f *FieldCopyToGenerator) genOneOfStub(g *j.Group) {
@@ -284,6 +302,9 @@ func (f *FieldCopyToGenerator) genOneOfStub(g *j.Group) {
 
 func (f *FieldCopyToGenerator) genListOrMap() *j.Statement {
 	fieldName := "obj." + f.Name
+	if f.ParentIsOptionalEmbed {
+		fieldName = "e"
+	}
 
 	var mk j.Code
 
@@ -298,6 +319,7 @@ func (f *FieldCopyToGenerator) genListOrMap() *j.Statement {
 
 	return f.nextField("a", func(g *j.Group) {
 		f.assertTo(f.Field.Type, g, func(g *j.Group) {
+			f.genOptionalEmbedValue("obj."+f.Name, g)
 			f.getAttr("c", f.Field.ValueType, g)
 
 			g.If(j.Id("!ok")).Block(
@@ -361,8 +383,9 @@ func (f *FieldCopyToGenerator) genListOrMap() *j.Statement {
 // genCustom generates statement representing custom type
 func (f *FieldCopyToGenerator) genCustom() *j.Statement {
 	return f.nextField("t", func(g *j.Group) {
+		fieldName := f.genOptionalEmbedValue("obj."+f.Name, g)
 		g.Id("v").Op(":=").Id("CopyTo"+f.Suffix).Params(
-			j.Id("diags"), j.Id("obj."+f.Name), j.Id("t"), j.Id("tf.Attrs").Index(j.Lit(f.NameSnake)),
+			j.Id("diags"), j.Id(fieldName), j.Id("t"), j.Id("tf.Attrs").Index(j.Lit(f.NameSnake)),
 		)
 		g.Id("tf.Attrs").Index(j.Lit(f.NameSnake)).Op("=").Id("v")
 	})
